@@ -46,6 +46,7 @@ type elObj struct {
 	inDemote          int
 	termToken         string
 	lateAck           bool
+	polledClaim       bool // objects without Metrics: the flag as last polled
 }
 
 // Inst is one participant (InstanceID) of the plan.
@@ -107,8 +108,13 @@ func (d *Driver) newObj(in *Inst) (*elObj, error) {
 	if !d.free {
 		// observers take the harness lock; in free-run mode (race detector) they would add
 		// happens-before edges between library goroutines that real programs do not have
-		cfg.Metrics = &obsMetrics{o: o}
-		cfg.Logger = &obsLogger{o: o}
+		// (optional fields left nil are a configuration of their own: the flag is then polled)
+		if !in.cfg.NoMetrics {
+			cfg.Metrics = &obsMetrics{o: o}
+		}
+		if !in.cfg.NoLogger {
+			cfg.Logger = &obsLogger{o: o}
+		}
 	}
 	if in.cfg.HasHealth {
 		cfg.HealthChecker = &scriptHealth{o: o}
@@ -158,13 +164,29 @@ func (m *obsMetrics) SetIsLeader(v float64, _ prometheus.Labels) {
 	tok := o.el.Token()
 	d.mu.Lock()
 	defer d.mu.Unlock()
+	d.claimObserved(o, v == 1, isL, tok, stack, false)
+}
+
+// claimObserved records one observation of an election object's leadership flag: by the metrics
+// observer (inside the library's critical section, at every SetIsLeader call), or - for objects
+// configured without Metrics - by polling IsLeader() before every lock release of the
+// instrumented copy and at every quiescent point (polled = true; only changes are recorded then).
+// Caller holds d.mu.
+func (d *Driver) claimObserved(o *elObj, val, isL bool, tok, stack string, polled bool) {
 	now := d.now()
 	prev := o.gaugeSet && o.gauge == 1
-	o.gauge, o.gaugeSet = v, true
-	val := v == 1
+	if polled {
+		prev = o.polledClaim
+		o.polledClaim = val
+	} else {
+		o.gauge, o.gaugeSet = 0, true
+		if val {
+			o.gauge = 1
+		}
+	}
 	ev := &ClaimEvt{Ord: d.h.nextOrd(), Inst: o.in.idx, Gen: o.gen, Val: val, Edge: val != prev, T: now, Step: d.step, Stack: stack, Token: tok}
 	if val != isL {
-		d.h.violate("C18", "gauge-differs-from-flag-in-critical-section/"+stack, fmt.Sprintf("SetIsLeader(%v) while IsLeader()=%v", v, isL), now, d.step)
+		d.h.violate("C18", "gauge-differs-from-flag-in-critical-section/"+stack, fmt.Sprintf("SetIsLeader(%v) while IsLeader()=%v", val, isL), now, d.step)
 	}
 	if ev.Edge && !o.dead {
 		ev.Live = d.store.Live(o.in.key(), now)
@@ -199,6 +221,34 @@ func (m *obsMetrics) SetIsLeader(v float64, _ prometheus.Labels) {
 		d.onClaimEdge(o, ev)
 	}
 	d.h.Claims = append(d.h.Claims, ev)
+}
+
+// pollClaims: objects that were given no Metrics have their flag polled. Called from the
+// instrumented copy's lock-release hook (on the releasing goroutine, still inside its critical
+// section) and by the driver at quiescent points.
+func (d *Driver) pollClaims(stack string) {
+	if !d.hasBare {
+		return
+	}
+	d.mu.Lock()
+	defer d.mu.Unlock()
+	d.pollClaimsLocked(stack)
+}
+
+func (d *Driver) pollClaimsLocked(stack string) {
+	for _, in := range d.insts {
+		for _, o := range in.objs {
+			if o.el == nil || !in.cfg.NoMetrics {
+				continue
+			}
+			isL := o.el.IsLeader()
+			if isL == o.polledClaim {
+				continue
+			}
+			d.probe("polled_claim_edge")
+			d.claimObserved(o, isL, isL, o.el.Token(), stack, true)
+		}
+	}
 }
 
 func (m *obsMetrics) SetConnectionStatus(float64, prometheus.Labels) {}
